@@ -190,6 +190,19 @@ func CheckOp(c *Ctx, req mon.OpReq, exp Expect, viaModel bool, mo mon.ModelOpts,
 				warm = append(warm, w.Inputs)
 			}
 		}
+		if len(warm) > 0 && c.R.Chance(0.3) {
+			// one of the other input lists is of another shape at one operand: it may well be
+			// refused inside Apply - a refused call leaves nothing behind in the instance either
+			k := c.R.Intn(len(warm))
+			perturbed := append([]*ref.T{}, warm[k]...)
+			for try := 0; try < 4 && len(perturbed) > 0; try++ {
+				if j := c.R.Intn(len(perturbed)); perturbed[j] != nil && perturbed[j].DT.IsFloat() && len(perturbed[j].Bits) > 0 {
+					perturbed[j] = variantOf(c.R, perturbed[j], c.R.Bool())
+					break
+				}
+			}
+			warm = append(warm[:k], append([][]*ref.T{perturbed}, warm[k:]...)...)
+		}
 		if len(warm) > 0 {
 			or, _, stale := mon.RunOpReused(req, warm, c.Idx%16 == 3)
 			c.Eval(1)
